@@ -354,6 +354,20 @@ def read_rest(src):
             continue
         raises = [s for s in call.body if isinstance(s, ast.Raise) and "NotImplementedError" in ast.unparse(s)]
         info = {"not_implemented": bool(raises), "pins": []}
+        if not raises:
+            order = []
+            for i, st in enumerate(call.body):
+                src = ast.unparse(st)
+                if isinstance(st, ast.Assign) and "self._interceptor.pre_" in src:
+                    order.append(("pre", i, src))
+                if isinstance(st, ast.Assign) and "._get_transcoded_request(" in src:
+                    order.append(("transcode", i, src))
+            info["pins"].append(("pre-interceptor before transcoding", [k for k, _, _ in order], ["pre", "transcode"]))
+            pre_src = next((x for k, _, x in order if k == "pre"), "")
+            tr_src = next((x for k, _, x in order if k == "transcode"), "")
+            info["pins"].append(("pre hook result is the request that is transcoded",
+                                 [bool(re.fullmatch(r"request, metadata = self\._interceptor\.pre_\w+\(request, metadata\)", pre_src)),
+                                  bool(re.fullmatch(r"transcoded_request = [\w.]+\._get_transcoded_request\(http_options, request\)", tr_src))], [True, True]))
         resp = next((n for n in cls.body if isinstance(n, ast.FunctionDef) and n.name == "_get_response"), None)
         if resp is not None:
             sess = [c for c in ast.walk(resp) if isinstance(c, ast.Call) and ast.unparse(c.func) == "getattr(session, method)"]
@@ -398,9 +412,20 @@ def run_library(job):
         for j in range(ncalls if O.bindings_of(ms) and not ms["client_streaming"] else 1):
             fam = families[j % len(families)] if O.bindings_of(ms) else "normal"
             r = env.rng(f"C04-call-{idx}-{ms['name']}", j) if "seed_tag" not in job else env.rng(f"C04-{job['seed_tag']}-{idx}-{ms['name']}", j)
-            m = job["fixed"][ms["name"]][j] if job.get("fixed") and ms["name"] in job["fixed"] and j < len(job["fixed"][ms["name"]]) else make_request(r, d, ms, fam)
-            if isinstance(m, str):
-                m = d.parse(ms["input"], m)
+            fx = job["fixed"][ms["name"]][j] if job.get("fixed") and ms["name"] in job["fixed"] and j < len(job["fixed"][ms["name"]]) else None
+            intercept, caller = None, None
+            if isinstance(fx, dict):          # recorded case with a REST pre-interceptor: caller's request, hook mode, request after the hook
+                m, caller, intercept = d.parse(ms["input"], fx["msg_b64"]), d.parse(ms["input"], fx["caller_b64"]), fx["intercept"]
+                fam = "intercept-" + intercept
+            elif fx is not None:
+                m = d.parse(ms["input"], fx) if isinstance(fx, str) else fx
+            elif fam.startswith("intercept-"):
+                # the caller passes one valuation, the pre_<method> hook turns it into another (other path variables, query and body fields)
+                intercept = fam.split("-")[1]
+                caller = make_request(env.rng(f"C04-caller-{job.get('seed_tag', '')}-{idx}-{ms['name']}", j), d, ms, "normal")
+                m = make_request(r, d, ms, "normal")
+            else:
+                m = make_request(r, d, ms, fam)
             reply, reply_json, reply_proto_names = make_reply(r, d, ms)
             if job.get("fixed_reply") and ms["name"] in job["fixed_reply"]:
                 rb, reply_json, reply_proto_names = job["fixed_reply"][ms["name"]]
@@ -411,21 +436,25 @@ def run_library(job):
             if ms["client_streaming"]:
                 spec["request"] = {"mode": "stream", "cls": cls, "stream": [d.b64(m)]}
             else:
-                spec["request"] = {"mode": "message", "cls": cls, "b64": d.b64(m)}
+                spec["request"] = {"mode": "message", "cls": cls, "b64": d.b64(caller if intercept else m)}
+            if intercept:
+                spec["intercept"] = {"mode": intercept, "b64": d.b64(m)}
             calls.append(spec)
+            # msg_b64 is the request the transport has to put on the wire: the one AFTER the pre-interceptor
             meta.append({"method": ms["name"], "family": fam, "msg_b64": d.b64(m), "reply_b64": d.b64(reply) if reply is not None else None,
-                         "reply_proto_names": reply_proto_names})
+                         "reply_proto_names": reply_proto_names, "intercept": intercept, "caller_b64": d.b64(caller) if intercept else None})
     root = gen.case_dir(f"c04-{idx}-{int(numeric)}-{job.get('seed_tag', '')}")
     try:
         gen.materialize(out, root)
-        outc = gen.impl("drive", {"root": root, "package": A.PYPKG, "calls": calls}, timeout=600)
+        outc = gen.impl("c04_drive", {"root": root, "package": A.PYPKG, "calls": calls}, timeout=600)
     except Exception as e:  # noqa
         res["error"] = f"driving the emitted library failed: {str(e)[-600:]}"
         return res
     finally:
         gen.rm(root)
     for mt, o in zip(meta, outc):
-        res["calls"].append({**mt, "ok": o["ok"], "error": o.get("error"), "http": o["http_calls"], "result": o.get("result")})
+        res["calls"].append({**mt, "ok": o["ok"], "error": o.get("error"), "http": o["http_calls"], "result": o.get("result"),
+                             "hook_calls": o.get("hook_calls", 0)})
     return res
 
 
@@ -520,6 +549,9 @@ def evaluate(ctx, jobs, results, tag):
             ms = schema[c["method"]]
             msg = d.parse(ms["input"], c["msg_b64"])
             case = {**base_case, "method": c["method"], "family": c["family"], "msg_b64": c["msg_b64"]}
+            if c.get("intercept"):
+                case.update({"intercept": c["intercept"], "caller_b64": c["caller_b64"],
+                             "caller_request": json_format.MessageToDict(d.parse(ms["input"], c["caller_b64"]), preserving_proto_field_name=True)})
             binds = O.bindings_of(ms)
             feats = [f"family={c['family']}", f"bindings={len(binds)}", "numeric" if numeric else "names"]
             if c["ok"] and len(c["http"]) == 1:
@@ -528,9 +560,11 @@ def evaluate(ctx, jobs, results, tag):
                 feats.append("raised=" + c["error"]["exception"])
             for bnd in binds[:1]:
                 feats.append("body=" + ("*" if bnd["body"] == "*" else "field" if bnd["body"] else "none"))
-            ctx.case({k: case[k] for k in ("api_index", "numeric", "method", "msg_b64")}, nontrivial=bool(binds), feature=feats)
-            # oracle
+            ctx.case({k: case.get(k) for k in ("api_index", "numeric", "method", "msg_b64", "intercept", "caller_b64")}, nontrivial=bool(binds), feature=feats)
+            # oracle (with a pre-interceptor, "the request" is the one the hook returned / left behind)
             probs = []
+            if c.get("intercept") and c["hook_calls"] != 1 and (c["ok"] or c["error"]["exception"] != "NotImplementedError"):
+                probs.append((f"pre_{ms['py']} of the custom REST interceptor ran {c['hook_calls']} times for one call", None))
             if c["ok"]:
                 if len(c["http"]) != 1:
                     probs.append((f"{len(c['http'])} HTTP requests for one call", None))
@@ -559,6 +593,8 @@ def evaluate(ctx, jobs, results, tag):
             else:
                 probs += O.check_error(ms, msg, c["error"]["exception"], c["error"]["message"], reserved)
             for what, sig in probs:
+                if c.get("intercept"):
+                    what = f"[REST pre-interceptor, {c['intercept']}: the wire must carry the request AFTER pre_{ms['py']}] {what}"
                 ctx.violation(f"{ms['name']} (rest-numeric-enums={'on' if numeric else 'off'}): {what}",
                               {**case, "rule": ms["rule"], "more": ms["more"], "request": json_format.MessageToDict(msg, preserving_proto_field_name=True),
                                "observed": c["http"] if c["ok"] else c["error"]}, sig)
@@ -607,7 +643,7 @@ def make_jobs(ctx, n_apis, ncalls, tag="e2e", start=0):
             continue
         for numeric in (False, True):
             jobs.append({"idx": i, "numeric": numeric, "req": req, "ncalls": ncalls,
-                         "families": ["normal", "normal", "normal", "hostile", "normal", "cross", "normal", "normal"]})
+                         "families": ["normal", "intercept-copy", "normal", "hostile", "intercept-inplace", "cross", "normal", "normal"]})
     return jobs
 
 
@@ -716,13 +752,20 @@ def run_witnesses(ctx):
     }
     fixed["Crc"] = [d.b64(d.new(P + ".CrcRequest", name="items/i", data_crc32c=123456, utf8string_value="u", api_v2beta=True)),
                     d.b64(d.new(P + ".CrcRequest", name="items/i"))]
+    # REST pre-interceptor: the hook returns another message (copy) / edits the caller's object (inplace); path variable,
+    # query field and body field all change, and the wire has to carry the request after the hook
+    fixed["Crc"].append({"caller_b64": d.b64(d.new(P + ".CrcRequest", name="items/a", data_crc32c=1)), "intercept": "copy",
+                         "msg_b64": d.b64(d.new(P + ".CrcRequest", name="items/b", data_crc32c=7, utf8string_value="z"))})
     one = d.new(P + ".OneRequest", name="items/i1", kind=1, tags=["a", "b"], labels={"k.x": "v"}, **{"from": "f"})
     setattr(one.sub, "class", "things/t1"); one.sub.count = 3
+    one2 = d.new(P + ".OneRequest", name="items/i9", kind=2, page_size=5, **{"from": "g"})
+    setattr(one2.sub, "class", "things/t9"); one2.sub.count = 9
     fixed["One"] = [d.b64(one), d.b64(d.new(P + ".OneRequest", **{"class": "cls/c1"})), d.b64(d.new(P + ".OneRequest", name="items/i3", big=5)),
-                    d.b64(d.new(P + ".OneRequest", name="items/i3"))]
+                    d.b64(d.new(P + ".OneRequest", name="items/i3")),
+                    {"caller_b64": d.b64(one), "intercept": "inplace", "msg_b64": d.b64(one2)}]
     kw_reply = d.new(P + ".KwReply", note="n", ignore_unknown_fields="c")
     fixed_reply = {"Echo": (d.b64(kw_reply), json.dumps({"ignore_unknown_fields": "c", "note": "n"}), True)}
-    jobs = [{"idx": 900, "numeric": False, "req": req, "ncalls": 4, "families": ["normal"], "fixed": fixed, "fixed_reply": fixed_reply,
+    jobs = [{"idx": 900, "numeric": False, "req": req, "ncalls": 5, "families": ["normal"], "fixed": fixed, "fixed_reply": fixed_reply,
              "seed_tag": "wit"}]
     results = gen.pmap(run_library, jobs)
     before = len(ctx.violations)
@@ -744,7 +787,8 @@ def run_corpus(ctx):
     for i, ((rb, numeric), cs) in enumerate(sorted(groups.items())):
         fixed = {}
         for c in cs:
-            fixed.setdefault(c["method"], []).append(c["msg_b64"])
+            fixed.setdefault(c["method"], []).append(
+                {"msg_b64": c["msg_b64"], "caller_b64": c["caller_b64"], "intercept": c["intercept"]} if c.get("intercept") else c["msg_b64"])
         jobs.append({"idx": 800 + i, "numeric": numeric, "req": apigen.req_from_b64(rb), "ncalls": max(len(v) for v in fixed.values()),
                      "families": ["normal"], "fixed": fixed, "seed_tag": "corpus"})
     if jobs:
@@ -799,7 +843,8 @@ def replay(ctx, rep):
         c = cases[0]
     req = apigen.req_from_b64(c["request_b64"])
     job = {"idx": c.get("api_index", 0), "numeric": bool(c.get("numeric")), "req": req, "ncalls": 1, "families": ["normal"],
-           "fixed": {c["method"]: [c["msg_b64"]]} if "method" in c else {}, "seed_tag": "replay"}
+           "fixed": {c["method"]: [{"msg_b64": c["msg_b64"], "caller_b64": c["caller_b64"], "intercept": c["intercept"]} if c.get("intercept")
+                                   else c["msg_b64"]]} if "method" in c else {}, "seed_tag": "replay"}
     results = gen.pmap(run_library, [job])
     for res in results:               # keep only the recorded call
         if "method" in c:
